@@ -29,7 +29,7 @@ def pieces(line: str, mnemonics: set[str]) -> list[dict]:
     assign_line = bool(re.match(r"^[A-Za-z_][A-Za-z0-9_]*[ \t]*=", s)) and not opcode_line
     seen_asg = False
     if opcode_line:
-        out.append({"t": "mn", "s": m.group(1).lower(), "u": m.group(1).upper()})
+        out.append({"t": "mn", "s": m.group(1).lower(), "u": m.group(1).upper(), "m": m.group(1).capitalize()})
         if m.group(2):
             out.append({"t": "sfx", "s": m.group(2).lower(), "u": m.group(2).upper()})
         pos = m.end()
